@@ -375,7 +375,7 @@ func init() {
 		Shards: shards(2, 16),
 		Meta: func(tier string) rt.Meta {
 			return rt.Meta{Level: "exploration", MinEvals: 50000, MinDistinct: 20, Exhaustive: true,
-				Rule:        "differential against the toolchain: T=Linux path/filepath of the host; T=Windows a copy of the toolchain's internal/filepathlite + path/filepath Windows code generated by scripts/gen_winpath.py (self-tested). Exhaustive over all strings up to the length bound over a 13-symbol alphabet (unary functions), all pairs up to a smaller bound plus asymmetric pairs (<=1 with <=4/5 symbols, <=2 with <=3/4, both orders) (Join, Rel, Match), then seeded random inputs of length <= 40. PathIterator: all clean absolute paths over {a,b,sep,.} up to 7 symbols, every part index x every replacement string. On odd shards the file system is constructed with an identity manager of the other OS type (the lexical functions follow Options.OSType). Signature = OS type | function | volume-prefix class of the input(s) | outcome; non-trivial = input longer than one byte. 'exhaustive' refers to the enumerated part.",
+				Rule:        "differential against the toolchain: T=Linux path/filepath of the host; T=Windows a copy of the toolchain's internal/filepathlite + path/filepath Windows code generated by scripts/gen_winpath.py (self-tested). Exhaustive over all strings up to the length bound over a 13-symbol alphabet (unary functions), all pairs up to a smaller bound plus asymmetric pairs (<=1 with <=4/5 symbols, <=2 with <=3/4, both orders) (Join, Rel, Match), then seeded random inputs of length <= 40. PathIterator: all clean absolute paths over {a,b,sep,.} up to 7 symbols, every part index x every replacement string. Pairs of names over runes whose Unicode case folding differs from lower-casing (long s, Kelvin sign, dotted I, final sigma). On odd shards the file system is constructed with an identity manager of the other OS type (the lexical functions follow Options.OSType). Signature = OS type | function | volume-prefix class of the input(s) | outcome; non-trivial = input longer than one byte. 'exhaustive' refers to the enumerated part.",
 				Assumptions: []string{"Windows Abs is compared only where Go's result is lexical (absolute inputs, plain relative inputs)", "the reference is generated from the toolchain that builds the harness (" + "go version in evidence notes)"}}
 		},
 		Run: func(c *rt.Ctx) {
